@@ -77,6 +77,9 @@ func (h *JSONHybridHandler) Handle(ctx context.Context, r slog.Record) (err erro
 
 	bufTextHdlr.reset()
 
+	// Clone the record before adding the attributes, since r may share its
+	// attribute storage with other copies of the same record.
+	r = r.Clone()
 	r.AddAttrs(h.textAttrs...)
 
 	err = bufTextHdlr.handler.Handle(ctx, r)
